@@ -235,7 +235,7 @@ func runC07(c *Ctx, r *Rec) {
 	}
 	r.count("rank leaves", nleaves)
 	r.floor("D1-leaf-order", 1)
-	r.floor("D1-unordered-cell", 1)
+	r.floorSoft("D1-unordered-cell", "agent.collator/rank-leaves", "no rank leaf over an unordered type (floating point, complex) could be bound: the leaves are not reached through a kind switch")
 
 	checkRankComposites(c, r, cr)
 
@@ -285,7 +285,7 @@ func runC07(c *Ctx, r *Rec) {
 		_, bad := depthBalanceWith(c, info, fd, cr.depthF, steppers7, 0)
 		r.check(bad == "", "D5-depth-balanced", c.fdName(fd), c.pos(fd.Pos()), "every normal exit and every loop back edge is reached with a net depth change of zero", bad)
 	}
-	r.floor("D5-depth-balanced", 1)
+	r.floorSoft("D5-depth-balanced", "agent.collator/depth-counter", "no method steps the depth counter directly")
 }
 
 // ---------------------------------------------------------------- operand mirror
@@ -905,6 +905,30 @@ func checkRankComposites(c *Ctx, r *Rec, cr *collRoles) {
 					r.ok("D7-pairwise-bounds", construct, c.pos(fs.Pos()), "the case that the operand bounding the loop is the longer one leaves the function before the loop")
 				case compared:
 					r.fail("D7-pairwise-bounds", construct, c.pos(fs.Pos()), "the pairwise loop runs up to the size of one operand and indexes the other, but the early exit before the loop is for the opposite size relation: when the bounding operand is longer the other one is indexed past its end")
+				case func() bool {
+					// some other treatment of the size relation before the loop (operands exchanged
+					// in place, a helper): not this rule's business
+					found := false
+					for _, st := range fd.Body.List {
+						if st == ast.Stmt(fs) {
+							break
+						}
+						ast.Inspect(st, func(x ast.Node) bool {
+							if be, ok := x.(*ast.BinaryExpr); ok && (mir.mirrorEq(be.X, be.Y) || mir.mirrorEq(be.Y, be.X)) {
+								switch be.Op {
+								case token.GTR, token.LSS, token.GEQ, token.LEQ, token.NEQ:
+									found = true
+								}
+							}
+							if call, ok := x.(*ast.CallExpr); ok && (isBuiltinCall(info, call, "min") || isBuiltinCall(info, call, "max")) {
+								found = true
+							}
+							return true
+						})
+					}
+					return found
+				}():
+					r.skip("D7-pairwise-bounds", construct, c.pos(fs.Pos()), "the sizes of the operands are compared before the loop in a way this rule does not follow (no early exit, perhaps an exchange in place)")
 				default:
 					// is the other operand indexed by the loop at all?
 					r.fail("D7-pairwise-bounds", construct, c.pos(fs.Pos()), "the pairwise loop runs up to the size of one operand and ranks the corresponding parts of the other, and nothing before the loop excludes that the bounding operand is the longer one (no swap arm, no size test): the other operand is indexed past its end")
@@ -943,7 +967,9 @@ func checkRankComposites(c *Ctx, r *Rec, cr *collRoles) {
 					if s, _ := satF(full, eq(ri, E)); !s {
 						// rank_i != Equal on this whole path: it must be returned
 						decided = true
-						if p.Kind != "return" || len(p.Rets) != 1 || p.Rets[0].Lin == nil || !p.Rets[0].Lin.equal(ri) {
+						if p.Kind == "return" && len(p.Rets) == 1 && p.Rets[0].Lin == nil {
+							env.problems = append(env.problems, fmt.Sprintf("the loop returns %v, a value computed in a way the interpreter does not follow (a lookup table, a call)", p.Rets))
+						} else if p.Kind != "return" || len(p.Rets) != 1 || p.Rets[0].Lin == nil || !p.Rets[0].Lin.equal(ri) {
 							viol = append(viol, fmt.Sprintf("when element rank #%d is not Equal the loop %ss %v instead of returning that rank unchanged", i+1, p.Kind, p.Rets))
 						}
 						break
